@@ -490,6 +490,12 @@ type Contract struct {
 	Behaviors map[string]*Contract
 	NoSafety  bool
 	Uses      []*Expr // lemma uses at entry
+	AnchoredUses []AnchoredUse // lemma uses applied when a local variable is first bound
+}
+
+type AnchoredUse struct {
+	Anchor string
+	E      *Expr
 }
 
 type LoopSpec struct {
@@ -679,6 +685,11 @@ func (sp *Specs) loadSpecFile(path, pkg string, trustedFile bool) error {
 		case "nosafety":
 			cur.NoSafety = true
 		case "use":
+			anchor := ""
+			if ai := strings.LastIndex(rest, " at "); ai >= 0 && !strings.ContainsAny(rest[ai+4:], " ()") {
+				anchor = strings.TrimSpace(rest[ai+4:])
+				rest = strings.TrimSpace(rest[:ai])
+			}
 			var guard *Expr
 			if gi := strings.Index(rest, " when "); gi >= 0 {
 				g, err := parseExpr(strings.TrimSpace(rest[gi+6:]))
@@ -694,6 +705,10 @@ func (sp *Specs) loadSpecFile(path, pkg string, trustedFile bool) error {
 			}
 			if guard != nil {
 				e = &Expr{Op: "guarded", Args: []*Expr{guard, e}}
+			}
+			if anchor != "" && cur != nil {
+				cur.AnchoredUses = append(cur.AnchoredUses, AnchoredUse{Anchor: anchor, E: e})
+				break
 			}
 			if cur != nil {
 				cur.Uses = append(cur.Uses, e)
